@@ -1,7 +1,16 @@
 from vf.pyunit import pyvc_unit
-from contracts import asn1
+from contracts import asn1, padding
 
 LEVEL = 'proof'
+MANIFEST = {
+    'engine': 'PYVC',
+    'text': 'Deductive: every listed decoder/encoder of the current tree is symbolically executed against its sidecar contract '
+            '(exceptional postcondition "only ValueError escapes", accept-iff-well-formed against X.690 / padding spec functions, '
+            'round-trip postconditions) for all byte strings and all lengths; a failed obligation is replayed natively.',
+    'note': 'Proved: the functions listed in evidence.functions_proved. Assumed (bounded or unchecked): callee contracts listed in '
+            'evidence.assumptions (long_to_bytes/bytes_to_long). Not decided here: PEM/RFC1751 text layers, time bound. '
+            'Trusted: PYVC model of CPython semantics, z3/cvc5.',
+}
 TRUSTED = ['CPython semantics as modelled by PYVC (DESIGN.md 2.3)', 'z3 5.1 / cvc5 1.0.3']
 A = 'Crypto.Util.asn1.'
 
@@ -10,4 +19,9 @@ def units(tier):
     us = []
     for t in ['BytesIO_EOF.read', 'BytesIO_EOF.read_byte', 'DerObject._decodeLen', 'DerObject._decodeFromStream', 'DerObject.decode']:
         us.append(pyvc_unit('C13', 'asn1.' + t, asn1.registry, [A + t]))
+    # block_size makes the length arithmetic non-linear: instantiated per value (DESIGN 2.6)
+    sizes = [1, 2, 3, 8, 16, 255] if tier == 'quick' else list(range(1, 256))
+    for bs in sizes:
+        us.append(pyvc_unit('C13', 'padding.bs%03d' % bs, padding.registry,
+                            ['Crypto.Util.Padding.pad', 'Crypto.Util.Padding.unpad'], fix={'block_size': bs}))
     return us
